@@ -52,7 +52,7 @@ def _cpython(err, trace):
 
 class C18(Prop):
     id = "C18"
-    lean_modules = ["VivModel.Props.C18", "VivModel.Props.Whole", "VivModel.Props.WholeDt"]
+    lean_modules = ["VivModel.Props.C18", "VivModel.Props.C01Src", "VivModel.Props.Whole", "VivModel.Props.WholeDt"]
     build_targets = ["VivModel.Model.Engine", "VivModel.Model.Events", "VivModel.Model.Proto", "VivModel.Model.Whole", "VivModel.Model.WholeDt"]
     driver = "C01"
     extra_drivers = ["Whole"]        # the cases of kind "whole" are interpreted by the composed model's driver
